@@ -18,7 +18,7 @@ for i in range(1, 18):
         n = sum(int(x.split(":")[1]) for x in body.split())
         k = p + ":" + rule
         if k not in fl:
-            added[k] = n if n <= 4 else int(n * 0.8)
+            added[k] = max(1, (n + 1) // 2) if n <= 4 else int(n * 0.6)
 if "--show" in sys.argv:
     print(json.dumps(added, indent=1)); sys.exit(0)
 fl.update(added)
